@@ -25,6 +25,7 @@ def describe(tier):
     return dict(bounds=dict(contents='all contents of length <= %d; boundary patterns up to %d bits' % (13 if q else 15, 129 if q else 16385), classes=list(CLASSES) + ['Array'],
                             read_windows='every (offset, length) with 0 <= offset <= offset+length <= 8*len(source) and the first out-of-range ones, over all sources of 0..%d bytes '
                                          'from the 5-byte alphabet, through bytes=, BytesIO, file handle and filename=' % (3 if q else 4),
+                            large_source='one 200 KiB source: 19 offsets around the 4096- and 65536-byte boundaries and the end x 7 lengths through filename=, handle, bytes=, BytesIO',
                             tofile_chunks='hook: chunk sizes 8, 64, 72 bits x contents of chunk-1, chunk, chunk+1, 2*chunk+3, 3*chunk bits' +
                                           ('' if q else '; hook off: one 100 MiB + 9 bit write into a hashing sink'),
                             array_dtypes=['uint3', 'uint8', 'int12', 'float16', 'bytes2' if False else 'uintle16']),
@@ -57,6 +58,7 @@ def shards(tier, seed):
     for chunk in (8, 64, 72):
         out.append(dict(kind='chunk', chunk=chunk, seed=seed))
     out.append(dict(kind='array'))
+    out.append(dict(kind='large', seed=seed))
     if not q:
         out.append(dict(kind='huge'))
     return out
@@ -78,6 +80,8 @@ def run_shard(shard, acc):
                 chunked(bs, acc, ctx, shard['chunk'], shard['seed'])
             elif k == 'array':
                 arrays(bs, acc, ctx)
+            elif k == 'large':
+                large_windows(bs, acc, ctx, shard['seed'])
             else:
                 huge(bs, acc)
     finally:
@@ -195,6 +199,62 @@ def read_windows(bs, acc, ctx, srcbits):
                               dict(source=payload.hex(), offset=k, length=n, route=rname, cls=cls, group=f"{rname}|{'ok' if valid else 'bad'}"), '\n'.join(lines), exp, got)
         acc.outcome(('win', exp))
     acc.sample(dict(source=payload.hex(), windows=len(wins), event="Cls(bytes=b, offset=k, length=n) / BytesIO / filename / handle for every window"))
+
+
+def large_windows(bs, acc, ctx, seed):
+    """Windows into a source of several memory pages: offsets below, at and above the 4096-byte and 65536-byte boundaries
+    (a file-backed object maps the file; the mapping granularity must not show)."""
+    nbytes = 3 * 65536 + 4096 + 5
+    payload = bytes(((i * 131 + (i >> 8) * 17 + seed) ^ (i >> 3)) & 0xFF for i in range(nbytes))
+    N = 8 * nbytes
+    path = ctx.file_for(payload)
+    gen = "bytes(((i * 131 + (i >> 8) * 17 + %d) ^ (i >> 3)) & 0xFF for i in range(%d))" % (seed, nbytes)
+
+    def bits(k, n):
+        by = payload[k // 8:(k + n + 7) // 8 + 1]
+        s = ''.join(format(b, '08b') for b in by)
+        return s[k % 8:k % 8 + n]
+    offs = sorted({0, 7, 8, 4095 * 8, 4096 * 8 - 1, 4096 * 8, 4096 * 8 + 1, 4096 * 8 + 13, 8192 * 8, 8192 * 8 + 5, 65535 * 8 + 7, 65536 * 8, 65536 * 8 + 3, 2 * 65536 * 8 + 4096 * 8 + 9,
+                   3 * 65536 * 8, N - 64, N - 9, N - 1, N})
+    acc.state(('large', nbytes))
+    for k in offs:
+        for n in (0, 1, 8, 13, 64, 4096 * 8 + 3, None):
+            if n is None:
+                n_eff = N - k
+            else:
+                n_eff = n
+            valid = k + n_eff <= N
+            if n is None and n_eff > 70000:
+                continue                      # a whole-rest window is compared for the later offsets only (cost)
+            exp = ('ok', bits(k, n_eff)) if valid else ('exc', 'ValueError')
+            for cls in ('Bits', 'ConstBitStream', 'BitArray'):
+                c = getattr(bs, cls)
+                ln = '' if n is None else f', length={n}'
+                kw = {} if n is None else dict(length=n)
+                rts = [('filename', lambda: c(filename=path, offset=k, **kw), f"bitstring.{cls}(filename=F, offset={k}{ln})")]
+
+                def fh_route():
+                    with open(path, 'rb') as fh:
+                        return c(fh, offset=k, **kw)
+                rts.append(('handle', fh_route, f"bitstring.{cls}(open(F, 'rb'), offset={k}{ln})"))
+                if cls == 'Bits':
+                    rts.append(('bytes', lambda: c(bytes=payload, offset=k, **kw), f"bitstring.{cls}(bytes=P, offset={k}{ln})"))
+                    rts.append(('bytesio', lambda: c(io.BytesIO(payload), offset=k, **kw), f"bitstring.{cls}(io.BytesIO(P), offset={k}{ln})"))
+                for rname, th, src in rts:
+                    got = obs(th, lambda r: (r.bin, r.tobytes().hex(), len(r)))
+                    e2 = ('ok', (exp[1], tob(exp[1]).hex(), n_eff)) if valid else exp
+                    good = got == e2 or (not valid and got[0] == 'exc' and got[1] in ('ValueError', 'CreationError'))
+                    acc.step('readback', 1, nontrivial=int(valid), ok=int(valid), rej=int(not valid))
+                    if not good:
+                        lines = ["import bitstring, io, tempfile, os", f"P = {gen}", "F = os.path.join(tempfile.mkdtemp(), 'f')", "open(F, 'wb').write(P)",
+                                 "def bits(k, n):", "    s = ''.join(format(b, '08b') for b in P[k // 8:(k + n + 7) // 8 + 1])", "    return s[k % 8:k % 8 + n]"]
+                        lines += [f"r = {src}", f"assert r.bin == bits({k}, {n_eff}) and len(r) == {n_eff}, (len(r), r.bin[:40])"] if valid else \
+                                 ["try:", f"    r = {src}", "except ValueError:", "    pass", "else:", "    assert False, len(r)"]
+                        acc.violation('readback', 'value' if valid and got[0] == 'ok' else ('noexc' if not valid else 'exc'),
+                                      dict(source=f'{nbytes} bytes', offset=k, length=n, route=rname, cls=cls, group=f"large|{rname}|{'ok' if valid else 'bad'}"), '\n'.join(lines),
+                                      str(e2)[:80], str(got)[:80])
+        acc.outcome(('largewin', k))
+    acc.sample(dict(source=f'{nbytes} bytes', offsets=offs, event="Cls(filename=F, offset=k, length=n), file handle, bytes=, BytesIO across page boundaries"))
 
 
 def chunked(bs, acc, ctx, chunk, seed):
